@@ -61,8 +61,8 @@ HOP_OP = {"rest": "roundtrip_docstring", "numpydoc": "roundtrip_docstring", "goo
 class ChainTable(Table):
     """Union of what the kinds on the chain permit."""
 
-    def __init__(self, kinds):
-        self.tables = [table_for(k, OPTS[k]) for k in kinds]
+    def __init__(self, kinds, opts=None):
+        self.tables = [table_for(k, (opts or OPTS)[k]) for k in kinds]
         self.kinds = kinds
         self.compare_summary = True
 
@@ -105,9 +105,12 @@ class ChainTable(Table):
         return r or None
 
 
-def one_chain(ctx, kinds, ir0, feat0):
+def one_chain(ctx, kinds, ir0, feat0, keep_default_sentence=False):
+    """keep_default_sentence: the docstring parsers run with their own default setting
+    (emit_default_doc=True), so the IR prose they return still carries 'Defaults to X'."""
     chain_name = "->".join(kinds)
-    replay = {"ir": ir_jsonable(ir0), "feat": feat0, "kinds": list(kinds)}
+    replay = {"ir": ir_jsonable(ir0), "feat": feat0, "kinds": list(kinds), "keep_default_sentence": keep_default_sentence}
+    OPTS = {k: (dict(v, parse_emit_default_doc=True) if keep_default_sentence and k in DOC_KINDS else v) for k, v in globals()["OPTS"].items()}
     cur, curfeat = ir_copy(ir0), feat0
     explained = set()
     cascade = False
@@ -115,7 +118,7 @@ def one_chain(ctx, kinds, ir0, feat0):
     lossy_ids = []  # finding ids of earlier hops (UNLISTED:* when a hop violated)
     for hop, kind in enumerate(kinds):
         base = case_base(HOP_OP[kind], kind, cur, curfeat, OPTS[kind])
-        base.update(chain=chain_name, hop=hop, chain_len=len(kinds))
+        base.update(chain=chain_name, hop=hop, chain_len=len(kinds), keep_default_sentence=keep_default_sentence)
         base["after_lossy_hop"] = bool(lossy_ids)
         base["earlier_hop_findings"] = sorted(set(lossy_ids))
         try:
@@ -144,8 +147,8 @@ def one_chain(ctx, kinds, ir0, feat0):
     ctx.event("chains_len{}".format(len(kinds)))
     # end-to-end
     base = case_base(OP, "chain", ir0, feat0, {})
-    base.update(chain=chain_name, chain_len=len(kinds), first=kinds[0], last=kinds[-1])
-    ct = ChainTable(kinds)
+    base.update(chain=chain_name, chain_len=len(kinds), first=kinds[0], last=kinds[-1], keep_default_sentence=keep_default_sentence)
+    ct = ChainTable(kinds, OPTS)
     ct.final_has_return = bool((cur.get("returns") or {}).get("return_type"))
     for d in compare(ir0, cur, feat0, ct, base):
         pname = d.get("param") if d["field"] != "return" else "return_type"
@@ -181,7 +184,9 @@ def run(ctx):
             ctx.feature("first=" + kinds[0])
             ctx.feature("len={}".format(len(kinds)))
             seen_chains.add(kinds)
-            one_chain(ctx, kinds, ir, feat)
+            keep = rep % 2 == 1 and any(k in DOC_KINDS for k in kinds)
+            ctx.feature("docstring_parser_keeps_default_sentence" if keep else "default_sentence_stripped")
+            one_chain(ctx, kinds, ir, feat, keep)
     ctx.note("distinct_chains_executed", len(seen_chains))
     ctx.note("exhaustive", len(seen_chains) == 252)
 
@@ -192,5 +197,5 @@ def replay(payload):
     rp = payload["replay"]
     ctx = Ctx(PROPERTY, "quick", 0)
     ctx.case(("replay",))
-    one_chain(ctx, tuple(rp["kinds"]), ir_from_jsonable(rp["ir"]), rp["feat"])
+    one_chain(ctx, tuple(rp["kinds"]), ir_from_jsonable(rp["ir"]), rp["feat"], rp.get("keep_default_sentence", False))
     return ctx
